@@ -126,6 +126,8 @@ fn dispatch(ctx: &Ctx) -> bool {
         "C16" => props::artifacts::run_c16(ctx),
         "C17" => props::artifacts::run_c17(ctx),
         "C18" => props::artifacts::run_c18(ctx),
+        "C32" => props::secrets::run_c32(ctx),
+        "C33" => props::secrets::run_c33(ctx),
         "C23" => props::publish::run(ctx),
         "C28" => props::config::run_c28(ctx),
         "C29" => props::config::run_c29(ctx),
@@ -169,6 +171,7 @@ fn run_replay(id: &str, path: &PathBuf) -> i32 {
         Some("c23") | Some("c23_gen") => props::publish::replay(case),
         Some("c05_honest") | Some("c05_malformed") => props::leafapi::replay(case),
         Some(k) if k.starts_with("c14_") || k.starts_with("c15") => props::provers::replay(case),
+        Some("c32") | Some("c33") => props::secrets::replay(case),
         Some("pool_history") => props::poolprops::replay(case, id),
         Some("c24") | Some("c24_pilen") => props::parsers::replay(case),
         other => Err(format!("no replay handler for kind {:?}", other)),
